@@ -601,7 +601,7 @@ def _explicit(repo, col):
     srcs = [unparse(n) for n in ast.walk(fi.node) if isinstance(n, ast.Call) and isinstance(n.func, ast.Attribute) and n.func.attr == "add"]
     want_src = {"vecfield.at[:, :-1].add((voltages[:, 1:] - voltages[:, :-1]) * uppers)",
                 "vecfield.at[:, 1:].add((voltages[:, :-1] - voltages[:, 1:]) * lowers)"}
-    ok = _axial_terms_ok(fi)
+    ok = _axial_terms_ok(fi, repo)
     col.check(ok, R, fi, "explicit vector field: (v_neighbour - v_self) * g into the row of self",
               "row i receives g_up*(v[i+1]-v[i]) and g_low*(v[i-1]-v[i])",
               f"axial terms are {srcs}", node=fi.node)
@@ -655,7 +655,51 @@ def _explicit(repo, col):
               f"returns {r.short() if r else None}", node=se.node)
 
 
-def _axial_terms_ok(fi) -> bool:
+def _signed_difference(val):
+    """val == (a - b) * g with a, b slices of `voltages`, whatever the spelling of the sign: `-(b - a) * g`, `g * (a - b)`, `-((b - a) * g)`.
+    Returns (a - b as a term, g) or None."""
+    sgn = 1
+    while val.op == "unary" and val.name == "USub":
+        sgn, val = -sgn, val.args[0]
+    if not (val.op == "binop" and val.name == "*" and len(val.args) == 2):
+        return None
+    fs = []
+    for f in val.args:
+        while f.op == "unary" and f.name == "USub":
+            sgn, f = -sgn, f.args[0]
+        fs.append(f)
+    is_v = lambda a_: a_.op == "sub" and a_.args[0].op == "param" and a_.args[0].name == "voltages"
+    d = next((f for f in fs if f.op == "binop" and f.name == "-" and len(f.args) == 2 and all(is_v(a_) for a_ in f.args)), None)
+    if d is None:
+        return None
+    g = fs[1] if fs[0] is d else fs[0]
+    if sgn < 0:
+        d = T("binop", "-", [d.args[1], d.args[0]], node=d.node)
+    return d, g
+
+
+def _axial_terms_ok(fi, repo=None) -> bool:
+    """vecfield.at[:, :-1].add((v[:, 1:] - v[:, :-1]) * uppers) and the mirrored lower term -- on the defining terms, in any spelling
+    of the signed difference"""
+    if repo is not None:
+        ex = idxm.expander(repo, fi)
+        t = ex.returns[-1] if ex.returns else None
+        found = set()
+        while t is not None and t.op == "mcall" and t.name in ("add", "set") and t.args and t.args[0].op == "sub" and \
+                t.args[0].args[0].op == "attr" and t.args[0].args[0].name == "at":
+            sl, val = t.args[0].args[1], (t.args[1] if len(t.args) > 1 else None)
+            sd = _signed_difference(val) if (val is not None and t.name == "add") else None
+            if sd is not None:
+                key = lambda z: z.pretty().replace(" ", "")
+                me, nb, own = key(sl), key(sd[0].args[0].args[1]), key(sd[0].args[1].args[1])
+                if own == me and nb != me:
+                    found.add(me)
+            t = t.args[0].args[0].args[0]
+        return len(found) == 2
+    return _axial_terms_ok_src(fi)
+
+
+def _axial_terms_ok_src(fi) -> bool:
     """vecfield.at[:, :-1].add((v[:, 1:] - v[:, :-1]) * uppers) and the mirrored lower term."""
     found = {"upper": False, "lower": False}
     for n in ast.walk(fi.node):
@@ -1399,11 +1443,11 @@ def _vectorfield(repo, col, R="R-C01-explicit"):
         if which is None or val is None:
             col.unk(R, fi, "axial part of the vector field", f"update of {sl.short(40)} not recognised", node=fi.node)
             continue
-        good = meth == "add" and val.op == "binop" and val.name == "*"
+        sd_ = _signed_difference(val) if meth == "add" else None
+        good = sd_ is not None
         detail = val.short(120)
         if good:
-            d, g = val.args if val.args[0].op == "binop" and val.args[0].name == "-" else (val.args[1], val.args[0])
-            good = d.op == "binop" and d.name == "-" and all(a_.op == "sub" and a_.args[0].op == "param" and a_.args[0].name == "voltages" for a_ in d.args)
+            d, g = sd_
             if good:
                 nb, own = col_slice(d.args[0].args[1]), col_slice(d.args[1].args[1])
                 # (neighbour - self): self is the slice being updated, the neighbour the other one
